@@ -103,6 +103,9 @@ var flagLabelRe = regexp.MustCompile("because it doesn't have the `([^`]+)` labe
 
 func classify(msg string) (side, kind string) {
 	switch {
+	case msg == "":
+		// a dead flag inherited from an operand whose reason calculateStaticReturn blanked: no new claim
+		return "none", "inherited"
 	case strings.HasPrefix(msg, "The right hand side will never be matched"):
 		return "right", "join"
 	case strings.HasPrefix(msg, "The left hand side will never be matched"):
